@@ -32,6 +32,22 @@ fn nest_doc(rng: &mut Rng, quick: bool) -> (DocSpec, &'static str) {
         ("<h3>", "</h3>", 3_000, "h3"),
         ("<pre>", "</pre>", 3_000, "pre"),
         ("<span class=c0 id=i0>", "</span>", 100_000, "span-attrs"),
+        // nesting THROUGH the parts of a table (what the library does with a
+        // caption, a header section, a header cell is its own business)
+        ("<table><caption>x", "</caption><tr><td>y</td></tr></table>", 30_000, "table-caption"),
+        ("<table><caption>x", "</caption><tr><td>y</td></tr></table>", 30_000, "table-caption"),
+        ("<table><thead><tr><th>", "</th></tr></thead></table>", 3_000, "table-thead"),
+        ("<table><tfoot><tr><td>a</td><td>", "</td></tr></tfoot></table>", 3_000, "table-tfoot"),
+        ("<dl><dt>", "</dt></dl>", 3_000, "dl-dt"),
+        ("<ul><li>a</li><li>", "</li></ul>", 3_000, "ul-second-item"),
+        ("<q>", "</q>", 100_000, "q"),
+        ("<small>", "</small>", 100_000, "small"),
+        ("<label>", "</label>", 100_000, "label"),
+        ("<center>", "</center>", 3_000, "center"),
+        ("<li>", "</li>", 3_000, "li"),
+        ("<h2>", "</h2>", 3_000, "h2"),
+        ("<a name=n>", "</a>", 20_000, "a-name"),
+        ("<img src=a alt=b><span>", "</span>", 100_000, "img-span"),
         ("<s>", "</s>", 100_000, "s"),
         ("<strong>", "</strong>", 100_000, "strong"),
     ];
